@@ -16,3 +16,14 @@ package dce
 //@   traverse mark kind ir.ExpressionHandle visited($)
 //@   except ExprCompose.Components ExprPhi.Incoming
 //@   nopanic
+//
+// ---- statement-tree walkers descend into every nested block -------------------------------
+// (type-derived: for the statement handled by one iteration every field of type
+// Block of every statement kind is passed to the recursive call; see ir/zz_verif_contracts.go)
+//
+//@ func propagateCallResultLiveness
+//@   mode bv
+//@   tags C13
+//@   ghostcall propagateCallResultLiveness visitedBlock block
+//@   traverse stepmark 1 block ir.Block visitedBlock($)
+//
